@@ -293,7 +293,7 @@ impl C07 {
 impl Monitor for C07 {
     fn total_cases(&self) -> u64 {
         // 68 exhaustive view cases + 1 rejection layer + random histories
-        68 + 1 + self.tier.pick(8_000, 200_000)
+        68 + 1 + self.tier.pick(24_000, 400_000)
     }
     fn run_case(&mut self, k: u64, rng: &mut Rng, col: &mut Collector) {
         if k < 68 {
